@@ -18,19 +18,20 @@ class V:
     __slots__ = ("x",)
 
     def __init__(self, x):
-        self.x = int(x)
+        # integers, or strings (the library's non-integer category values), or None for "argument not given"
+        self.x = x if x is None else (str(x) if isinstance(x, str) else int(x))
 
     def __repr__(self):
-        return "V(%d)" % self.x
+        return "V(%r)" % (self.x,)
 
 
-NOREP = {"shape": [0], "common": V(0), "ents": [], "valraise": False}
+NOREP = {"shape": [0], "common": V(None), "ents": [], "valraise": False}
 import random as _random
 ORDER_RND = _random.Random(20261003)
 
 
 def _is_pyint(c):
-    return type(c) is int
+    return type(c) is int or type(c) is str
 
 
 def project(idx):
@@ -68,6 +69,10 @@ def dense_of(idx):
     return out
 
 
+def _val(v):
+    return str(v) if isinstance(v, str) else int(v)
+
+
 def canonical(iindex, dense, common):
     """build the unique well-formed index of (dense, common) without using library constructors' logic"""
     dense = np.asarray(dense, dtype=object)
@@ -83,13 +88,13 @@ def canonical(iindex, dense, common):
             if v == common:
                 continue
             rows = [r for r, x in enumerate(col.tolist()) if x == v]
-            entries[(int(v),) + hc] = np.array(rows, dtype=np.uint32)
+            entries[(_val(v),) + hc] = np.array(rows, dtype=np.uint32)
     # a dict has an insertion order and nothing may depend on it: half of the objects get a shuffled one
     if ORDER_RND.random() < 0.5:
         items = list(entries.items())
         ORDER_RND.shuffle(items)
         entries = dict(items)
-    return iindex(entries, int(common), tuple(int(s) for s in dense.shape))
+    return iindex(entries, _val(common), tuple(int(s) for s in dense.shape))
 
 
 def wellformed(idx):
@@ -191,7 +196,7 @@ class Recorder:
     def from_array(self, a, common=None, mapping=None, counts=None):
         raw = a
         a = np.asarray(a)
-        args = {"a": nested(a), "shape": list(a.shape), "hascommon": common is not None, "common": V(common or 0),
+        args = {"a": nested(a), "shape": list(a.shape), "hascommon": common is not None, "common": V(common),
                 "hasmapping": mapping is not None,
                 "mapping": [[V(k), V(v)] for k, v in (mapping or {}).items()], "hascounts": counts is not None}
         ev = self._ev("from_array", args=args)
@@ -229,7 +234,7 @@ class Recorder:
 
     # ---- mutators ---------------------------------------------------------------------------------
     def shift_common(self, idx, v=None):
-        ev = self._ev("shift_common", recv=idx, args={"hasv": v is not None, "v": V(v or 0)})
+        ev = self._ev("shift_common", recv=idx, args={"hasv": v is not None, "v": V(v)})
         self._call(ev, (lambda: idx.shift_common()) if v is None else (lambda: idx.shift_common(v)))
         self._finish(ev, recv=idx, desc=("shift_common", v))
 
@@ -334,7 +339,7 @@ class Recorder:
         return res
 
     def column_stack_op(self, idxs, new_common=None, copy=False):
-        args = {"hasnewcommon": new_common is not None, "newcommon": V(new_common or 0), "copy": bool(copy)}
+        args = {"hasnewcommon": new_common is not None, "newcommon": V(new_common), "copy": bool(copy)}
         ev = self._ev("column_stack", others=list(idxs), args=args)
         lst = list(idxs)
         res = self._call(ev, lambda: self.column_stack(lst, new_common=new_common, copy=copy))
@@ -347,7 +352,7 @@ class Recorder:
 
     # ---- queries ----------------------------------------------------------------------------------------
     def query(self, idx, q, **kw):
-        args = {"q": q, "key": [V(0)], "hc": []}
+        args = {"q": q, "key": [V(None)], "hc": []}
         ret = {"none": True, "rows": [], "items": [], "values": [], "num": 0, "den": 1, "n": 0}
         if q in ("get", "get_noforce"):
             key = kw["key"]
@@ -400,7 +405,7 @@ class Recorder:
     def common_common(self, idxs):
         ev = self._ev("common_common", others=list(idxs))
         res = self._call(ev, lambda: self.iindex.common_common(list(idxs)))
-        self._finish(ev, others=list(idxs), ret={"v": V(res if res is not None else 0)}, desc=("common_common", len(idxs)))
+        self._finish(ev, others=list(idxs), ret={"v": V(res)}, desc=("common_common", len(idxs)))
 
     def set_if(self, idx, key, rows, copy=True):
         args = {"key": [V(key[0])] + list(key[1:]), "rows": [] if rows is None else list(map(int, rows)), "none": rows is None,
@@ -439,7 +444,8 @@ LIM = 2 ** 31 - 1
 
 def _collect(o, acc):
     if isinstance(o, V):
-        acc.add(o.x)
+        if o.x is not None:
+            acc.add(o.x)
     elif isinstance(o, dict):
         for x in o.values():
             _collect(x, acc)
@@ -450,7 +456,7 @@ def _collect(o, acc):
 
 def _subst(o, f):
     if isinstance(o, V):
-        return f(o.x)
+        return 0 if o.x is None else f(o.x)
     if isinstance(o, dict):
         return {k: _subst(v, f) for k, v in o.items() if k != "excmsg"}
     if isinstance(o, (list, tuple)):
@@ -464,8 +470,10 @@ def serialise(ev):
     """event with V-wrapped values -> plain JSON-able dict; rank-abstract if a value exceeds 31 bits"""
     vals = set()
     _collect(ev, vals)
-    if all(-LIM <= v <= LIM for v in vals):
+    if all(isinstance(v, int) and -LIM <= v <= LIM for v in vals):
         return _subst(ev, lambda x: x)
+    if len({isinstance(v, str) for v in vals}) > 1:
+        return None   # integers and strings in one event have no order: not generated by the drivers
     if (ev["op"] == "reindexed" and not ev["args"]["hasmapping"]) or \
             (ev["op"] == "query" and ev["args"]["q"] in ("cube_shape",)):
         return None  # value arithmetic (k-1, max+1): cannot be rank-abstracted; drivers do not generate these
